@@ -19,6 +19,11 @@ func LeftShift(left, right value.Value) error {
 	}
 	lv := value.Unwrap[*value.Integer](left)
 	rv := value.Unwrap[*value.Integer](right)
+	if rv.Value < 0 {
+		return errors.WithStack(
+			fmt.Errorf("shift count must not be negative for left-shift operator, right=%d", rv.Value),
+		)
+	}
 	// nolint: gocritic
 	if int64(lv.Value<<rv.Value) > int64(math.MaxInt64) {
 		lv.Value = 0
@@ -43,6 +48,11 @@ func RightShift(left, right value.Value) error {
 	}
 	lv := value.Unwrap[*value.Integer](left)
 	rv := value.Unwrap[*value.Integer](right)
+	if rv.Value < 0 {
+		return errors.WithStack(
+			fmt.Errorf("shift count must not be negative for right-shift operator, right=%d", rv.Value),
+		)
+	}
 	// nolint: gocritic
 	if int64(lv.Value>>rv.Value) > int64(math.MaxInt64) {
 		lv.Value = 0
